@@ -172,23 +172,31 @@ func (h *harness) validStep(path string) bool {
 		var wg sync.WaitGroup
 		var emu sync.Mutex
 		start := make(chan struct{})
+		raw := blk.ToArray()
 		for g := 0; g < 3; g++ {
+			// every source has its OWN block object (decoded from the bytes, as consensus and p2p do):
+			// no shared *types.Header whose hash cache the submitters would write concurrently
+			own, derr := types.BlockFromRawBytes(append([]byte{}, raw...))
+			if derr != nil {
+				r.Violation("valid-successor-not-built", derr.Error(), nil)
+				return false
+			}
 			wg.Add(1)
-			go func(g int) {
+			go func(g int, own *types.Block) {
 				defer wg.Done()
 				<-start
 				var err error
 				if g == 2 {
-					err = h.main.Store.AddBlock(blk, res.MerkleRoot)
+					err = h.main.Store.AddBlock(own, res.MerkleRoot)
 				} else {
-					err = h.main.Store.SubmitBlock(blk, res)
+					err = h.main.Store.SubmitBlock(own, res)
 				}
 				if err != nil {
 					emu.Lock()
 					errs = append(errs, fmt.Sprintf("submitter %d: %v", g, err))
 					emu.Unlock()
 				}
-			}(g)
+			}(g, own)
 		}
 		close(start)
 		wg.Wait()
@@ -547,7 +555,7 @@ func TestC13(t *testing.T) {
 func TestC13Race(t *testing.T) {
 	r := kit.Start(t, "C13", "exploration")
 	defer r.Finish()
-	r.Rule("race phase: one submitter (valid successors and the 14 mutant kinds through both paths) against 4 reader goroutines doing a fixed number of lookups per submission (tip, block/header by height and hash, transaction lookups, containment); evaluation = one submission; distinct = (kind, path)")
+	r.Rule("race phase: one submitter (valid successors - a third of them handed in by three goroutines at once, 2x SubmitBlock + AddBlock, each with its own block object - and the 14 mutant kinds through both paths) against 4 reader goroutines doing a fixed number of lookups per submission (tip, block/header by height and hash, transaction lookups, containment); evaluation = one submission; distinct = (kind, path)")
 	r.Assume("readers use only the lookups named in the property; every Go race report is a violation (reported by the driver)")
 	h, closeFn := openPair(r, "race", false)
 	defer closeFn()
@@ -614,8 +622,8 @@ func TestC13Race(t *testing.T) {
 		close(start)
 		path := []string{"consensus", "sync"}[h.rng.Intn(2)]
 		if h.rng.Intn(100) < 50 {
-			if os.Getenv("C13_RACE_CONCURRENT") != "" && i%3 == 0 {
-				path = "concurrent" // experiment only: overlapping SubmitBlock/AddBlock under the race detector
+			if i%3 == 0 {
+				path = "concurrent" // the same block from three sources at once (2x SubmitBlock + AddBlock), own block objects
 			}
 			h.validStep(path)
 		} else {
@@ -628,7 +636,8 @@ func TestC13Race(t *testing.T) {
 	}
 	r.Sample(map[string]interface{}{"submissions": nSub, "tip": h.tip(), "concurrent_reads": r.Get("concurrent_reads")})
 	r.Require("concurrent_reads", nSub*readers*readsPerRound/2)
-	r.Require("accepted_consensus", nSub/8)
-	r.Require("accepted_sync", nSub/8)
+	r.Require("accepted_consensus", nSub/12)
+	r.Require("accepted_sync", nSub/12)
+	r.Require("accepted_concurrent", nSub/12)
 	r.Require("mutant_refused_with_error", nSub/8)
 }
